@@ -292,6 +292,21 @@ def run(tier):
     vm = [(bb, t) for bb, t in bc.calls() if callee_name(t).endswith('validate_mic')]
     okc = len(oks) == 1 and len(vm) == 1 and guarded_by_call(bc, oks[0], 'validate_mic') and peel(term_of_operand(bc, vm[0][1].args[1])) == ('param', 2) and \
         has_call(term_of_operand(bc, vm[0][1].args[0]), 'decrypt_in_place')
+    if not oks and len(vm) == 1:
+        # the result built by combinators (`ok.then_some(x).ok_or(e)`): the alternatives of the returned value, each with its
+        # conditions; the only Ok alternative must be the one taken when validate_mic returned true
+        rets = [(b.idx, b.term) for b in bc.body.blocks if not b.cleanup and b.term is not None and getattr(b.term, 'k', None) == 'call'
+                and b.term.dest is not None and b.term.dest.local == 0 and not b.term.dest.proj and not callee_name(b.term).endswith('from_residual')]
+        if len(rets) == 1:
+            rt = flow.term_of_call(bc, rets[0][0]) if hasattr(flow, 'term_of_call') else None
+            if rt is None:
+                t_ = rets[0][1]
+                rt = ('call', callee_name(t_), tuple(term_of_operand(bc, a_) for a_ in t_.args), rets[0][0])
+            cases = rules.value_cases(bc, rt)
+            okcases = [(v_, cs_) for v_, cs_ in cases if isinstance(v_, tuple) and v_[:1] == ('agg',) and str(v_[1]).endswith('Result::Ok')]
+            known = all(isinstance(v_, tuple) and v_[:1] == ('agg',) and str(v_[1]).endswith(('Result::Ok', 'Result::Err')) for v_, _ in cases)
+            okc = known and len(okcases) == 1 and any(isinstance(peel(cn_[0]), tuple) and peel(cn_[0])[:1] == ('call',) and str(peel(cn_[0])[1]).endswith('validate_mic') and tuple(cn_[1]) == (1,) for cn_ in okcases[0][1]) and \
+                peel(term_of_operand(bc, vm[0][1].args[1])) == ('param', 2) and has_call(term_of_operand(bc, vm[0][1].args[0]), 'decrypt_in_place')
     res.require(okc, 'C11:check_mic_and_decrypt_in_place:ok-without-mic', 'Ok is returned without validate_mic(decrypted, same crypto) being true', bc.body.path,
                 'DOM(validate_mic => Ok)', instance='check_mic_and_decrypt_in_place: Ok only if validate_mic under the same key')
     bv = c.bf(P + 'validate_mic')
